@@ -3,7 +3,7 @@
 P="$1"; RUNS="$2"; shift 2
 T=$(mktemp -d /tmp/gbsim-try-XXXXXX)
 cp -r /repo/src "$T/src"; rm -rf "$T/src/gbigsmiles/__pycache__"
-(cd "$T" && patch -p1 -s < "$P") || { echo "patch failed"; rm -rf "$T"; exit 3; }
+(cd "$T" && git apply --include='src/*' "$P") || { echo "patch failed"; rm -rf "$T"; exit 3; }
 if [ "$RUNS" != "0" ]; then export GBSIM_RUNS="$RUNS"; fi
 for PID in "$@"; do
   GBSIM_REPO="$T" GBSIM_EVIDENCE_DIR="$T/ev" GBSIM_REPLAY_DIR="$T/rp" /verif/check "$PID" quick > "$T/out.txt" 2>&1; RC=$?
